@@ -16,6 +16,7 @@ import numpy as np
 import core
 import oracle_faces as of
 import zoo
+from koala import example_graphs as eg
 from koala.lattice import Lattice, LatticeException
 try:                                                     # a private helper: present at the pinned commit, free to change its name or signature
     from koala.lattice import _find_plaquette
@@ -35,7 +36,10 @@ def canon(es, ds):
 
 
 def min_gap(l):
-    """exact sin^2 of the smallest angle between two edges leaving a vertex within 90 degrees of each other"""
+    """exact sin^2 of the smallest angle between two edges leaving a vertex within 90 degrees of each other - the genericity margin of every check that depends on
+    the cyclic order of edges (compared with GAP_MIN = 1e-18, i.e. a gap of 1e-9 rad).  The margin exists because the implementation sorts float angles of float
+    edge vectors: the direction of a vector of length s between positions of order 1 is only known to about 1e-16 / s.  For a pair of *long* edges (both longer
+    than 1/20) that is 2e-15 rad, so their gap is weighted by 1e5: such pairs count as generic down to 3e-12 rad."""
     P = of.exact_positions(l)
     E = np.asarray(l.edges.indices, dtype=int); C = np.asarray(l.edges.crossing, dtype=int)
     out = {}
@@ -54,7 +58,8 @@ def min_gap(l):
                     den = (a[0] ** 2 + a[1] ** 2) * (b[0] ** 2 + b[1] ** 2)
                     if den == 0:
                         return Fraction(0)
-                    best = min(best, Fraction(cr * cr) / den)
+                    long_pair = min(a[0] ** 2 + a[1] ** 2, b[0] ** 2 + b[1] ** 2) >= Fraction(1, 400)
+                    best = min(best, Fraction(cr * cr) / den * (10 ** 5 if long_pair else 1))
     return best
 
 
@@ -222,6 +227,33 @@ def run(ctx):
             ctx.impl_violation(f"{name}: on a freshly built lattice {fails[0]}", dict(case=name, lattice=zoo.lat_to_json(l), failures=[str(f) for f in fails[:5]]))
         ctx.case((name, l.n_vertices, l.n_edges), nontrivial=l.n_edges >= 3)
         ctx.count("churn_lattices")
+    # lattices derived from a lattice whose plaquettes were already computed (relabelled, pickled, copied): their plaquettes are the legitimate faces too -
+    # whatever of the parent's cached results the derived object was handed
+    import copy as _copy, pickle as _pickle
+    from koala.lattice import permute_vertices as _permute
+    from koala import graph_utils as _gu
+    derived_from = [(n, l) for n, f, l in cases if f in ("example", "corpus") or n.startswith("vor")][:: 3][: (14 if ctx.tier == "quick" else 60)]
+    derived_from += [("single300", eg.single_plaquette(300)), ("single256", eg.single_plaquette(256)), ("wheel300", eg.higher_coordination_number_example(300))]
+    for name, l in derived_from:
+        if zoo.has_self_loop(l) or l.n_edges == 0:
+            continue
+        try:
+            l = zoo.rebuild(l)
+            _ = l.plaquettes; _ = l.edges.adjacent_plaquettes
+            o1 = rng.permutation(l.n_vertices)
+            o2 = np.roll(np.arange(l.n_vertices), 1)
+            children = [("permute_vertices (random)", _permute(l, o1)), ("permute_vertices (cyclic shift)", _permute(l, o2)), ("reorder_vertices", _gu.reorder_vertices(l, o1)),
+                        ("pickle round trip", _pickle.loads(_pickle.dumps(l))), ("deepcopy", _copy.deepcopy(l))]
+        except Exception as ex:
+            ctx.impl_violation(f"{name}: deriving a lattice from one with computed plaquettes raised {type(ex).__name__}: {ex}", dict(case=name, lattice=zoo.lat_to_json(l))); continue
+        for lab, ch in children:
+            try:
+                fails = of.check_plaquettes(ch)
+            except Exception as ex:
+                fails = [f"raised {type(ex).__name__}: {ex}"]
+            if fails:
+                ctx.impl_violation(f"{name} -> {lab} (after the parent's plaquettes were computed): {fails[0]}", dict(case=name, derived=lab, lattice=zoo.lat_to_json(ch), failures=[str(f) for f in fails[:5]])); break
+            ctx.case((name, "derived", lab), nontrivial=True)
     core.history_check(ctx, "import numpy as np\nfrom koala import example_graphs as eg, voronization as vz, graph_utils as gu, quasicrystals as qc, phase_diagrams as pdg, hamiltonian as ham\nfrom koala.flux_finder import flux_finder as ff\n\ndef _canon(l):\n    parts = [l.vertices.positions.ravel(), l.edges.indices.ravel().astype(float), l.edges.crossing.ravel().astype(float)]\n    return np.concatenate(parts)\ndef _plaq(l):\n    out = []\n    for p in l.plaquettes:\n        out += [float(len(p.edges))] + [float(x) for x in p.edges] + [float(x) for x in p.directions] + [float(x) for x in p.vertices] + [float(x) for x in p.center]\n    return np.array(out)\n_pts = np.random.default_rng(123).uniform(size=(14, 2))\n", ["_plaq(vz.generate_lattice(_pts))", "_plaq(eg.honeycomb_lattice(2))", "_plaq(eg.tri_square_pent())"], label="Lattice.plaquettes of")
     ctx.assumptions += [
         "float arctan2 ordering and winding are replaced in the model by exact predicates; inputs whose smallest angular gap has sin^2 < 1e-18 are precondition-excluded (counted)",
